@@ -3,7 +3,7 @@ Per rule: all sequences over (rule names + one foreign name) up to a length boun
 random words of the language and their single mutations (longer sequences); both
 modes; oracle = declarative language membership (harness/lang.py)."""
 import itertools
-import impl, gen, lang
+import impl, gen, lang, automaton
 from metapype.model.node import Node
 from metapype.eml import rule as rulemod, validate
 
@@ -11,6 +11,7 @@ TRUSTED = ["element names are compared as Python str",
            "the declarative language (harness/lang.py, Lean `Lang`) is my reading of 'nested sequences and choices with min/max occurrences'",
            "sequences beyond the enumerated lengths are covered by the Lean theorem and by sampled words/mutations only"]
 FOREIGN = "zzForeign"
+WSTATS = {}
 
 
 def max_len(a, tier):
@@ -27,6 +28,17 @@ def sequences(ri, rn, ctx):
     for n in range(0, L + 1):
         for w in itertools.product(alpha, repeat=n):
             seen.add(w)
+            yield list(w)
+    # W-method conformance suite over the minimal DFA of the rule's strict language (k extra states: 0 quick, 1 thorough)
+    D, A = automaton.minimal_dfa(s, alpha, rn in ri.mixed)
+    suite, nstates, nw = automaton.w_suite(D, A, alpha, 0 if ctx.tier == "quick" else 1)
+    WSTATS[rn] = (nstates, len(suite))
+    for w in sorted(suite):
+        if w not in seen and len(w) <= 80:
+            seen.add(w)
+            # the automaton and the declarative oracle are two independent constructions: they must agree
+            if automaton.accepts(D, A, w) != lang.in_lang(s, list(w), True, rn in ri.mixed):
+                raise AssertionError(f"harness: minimal DFA and declarative language disagree on {rn} {w}")
             yield list(w)
     # longer: sampled words of the language and single mutations
     k = 12 if ctx.tier == "quick" else 80
@@ -148,10 +160,12 @@ def run(ctx):
             samples.append({"rule": rn, "children": w, "impl_ff": r["ff"], "impl_codes": r["codes"]})
     return {
         "evaluations": len(cases), "distinct_nontrivial": nontrivial,
-        "rule": "per rule: every sequence over (names of the rule + one foreign name) up to length 4/3/2 (quick) or 6/5/4/3/2 (thorough) "
+        "rule": "per rule: the W-method conformance suite over the minimal DFA of the rule's language (complete for validators with up to k extra states; k=0 quick, k=1 thorough; "
+                "'states' = sum of minimal-DFA sizes, 'transitions' = suite words), every sequence over (names of the rule + one foreign name) up to length 4/3/2 (quick) or 6/5/4/3/2 (thorough) "
                 "by alphabet size, plus sampled words of the language and their single mutations (drop, duplicate, replace, insert, swap, reverse); "
                 "each validated in both modes on a parent with valid content and attributes; non-trivial = non-empty sequence; all cases distinct",
         "samples": samples, "corr_diffs": diffs, "oracle_fails": fails, "distribution": dist, "drift": drift,
+        "states": sum(v[0] for v in WSTATS.values()), "transitions": sum(v[1] for v in WSTATS.values()),
     }
 
 
